@@ -228,6 +228,7 @@ def features(hy, tree):
     assert_falsy = any(_head(hy, n) == "assert" and len(n) == 3 and falsy(n[2]) for n in nodes)
     tp_falsy = any(isinstance(n, m.List) and any(_head(hy, c) == "annotate" and len(c) == 3 and falsy(c[2]) for c in n) for n in nodes)
     f["falsy_literal_truth_tested"] = assert_falsy or tp_falsy
+    f["tp_falsy_bound"] = tp_falsy
     f["star_wildcard"] = any(_head(hy, n) == "unpack-iterable" and len(n) == 2 and n[1] == m.Symbol("_") for n in nodes) \
         and any(_head(hy, n) == "match" for n in nodes)
     def as_wild(n):
